@@ -17,8 +17,12 @@ def build(b, buckets=BUCKETS):
             c = {"op": "start_timer", "of": "H" if e["kind"] == "shared" else "L", "as": e["t"]}
         elif op == "closure":
             c = {"op": "observe_closure", "of": "H" if e["kind"] == "shared" else "L", "ret": 41}
+        elif op == "closure_reenter":
+            c = {"op": "observe_closure", "of": "H" if e["kind"] == "shared" else "L", "ret": 41, "reenter": True}
         elif op == "lflush":
             c = {"op": "lflush", "obj": "L"}
+        elif op == "drop_timer_unwinding":
+            c = {"op": "drop_timer", "obj": e["t"], "thread": e["thread"], "unwinding": True}
         else:
             c = {"op": op, "obj": e["t"], "thread": e["thread"]}
         marks.append(len(calls))
@@ -76,7 +80,7 @@ def run(ctx):
                             break
                     if not ok:
                         break
-            if e["op"] == "closure" and rr["ok"] != 41:
+            if e["op"] in ("closure", "closure_reenter") and rr["ok"] != 41:
                 ctx.violation("closure-result", "observe_closure_duration returned %s instead of the closure's result 41" % rr["ok"], rp); ok = False; break
             if sm < prev_sum or not (sm >= 0):
                 ctx.violation("sum-decreased", "history %s: sample sum went from %r to %r" % (hist_ops, prev_sum, sm), rp); ok = False; break
